@@ -341,7 +341,7 @@ def judge_witness(trace, counters, brute_limit=14):
 # ------------------------------------------------------------------ C04
 
 
-def judge_passthrough(in_path, out_path, doc, targets, chromosomes, tag, only_snvs, distrust, counters):
+def judge_passthrough(in_path, out_path, doc, targets, chromosomes, tag, only_snvs, distrust, counters, allow_multiallelic=False):
     """htslib record differ between input and output of `phase`."""
     a = vcfdiff.load(in_path)
     try:
@@ -369,9 +369,9 @@ def judge_passthrough(in_path, out_path, doc, targets, chromosomes, tag, only_sn
             counters["phased_calls_judged"] = counters.get("phased_calls_judged", 0) + 1
             if xb is None or None in xb or len(set(xb)) < 2:
                 return "non-heterozygous call marked phased %r" % (xb,)
-            if len(rec["alts"]) != 1:
+            if len(rec["alts"]) != 1 and not (allow_multiallelic and len(rec["alts"]) > 1):
                 return "multi-ALT/no-ALT record marked phased %r" % (xb,)
-            if only_snvs and not (len(rec["ref"]) == 1 and len(rec["alts"][0]) == 1):
+            if only_snvs and not (len(rec["ref"]) == 1 and all(len(x) == 1 for x in rec["alts"])):
                 return "non-SNV marked phased with --only-snvs"
         return None
 
